@@ -18,13 +18,13 @@ THEOREMS = [f"NumbersModel.Props.C06.{t}" for t in (
     "lookup_finds_key", "lookup_absent_key", "lookup_perm_invariant", "table_string_never_degrades",
     "table_string_perm_invariant", "key_index_points_to_entry", "next_key_fresh", "next_key_perm_invariant",
     "row_at_declared_index", "row_without_record_is_empty", "header_records_irrelevant",
-    "narrow_wide_agree", "unpack_pack", "store_order_irrelevant")]
+    "narrow_wide_agree", "unpack_pack", "store_order_irrelevant",
+    # Model/DocTree.lean: table order inside a sheet / names of the whole document do not follow the store's iteration order
+    "table_order_within_a_sheet", "names_independent_of_store_order")]
 PARTIAL = {
     "whole_document_layout_independence": "that a whole Document reads the same from two layouts is not a theorem: zipfile, the file "
         "system, snappy and protobuf sit between the file and the modelled mechanisms; it is checked by the metamorphic runs "
         "(implementation level, exploration). Chunk boundaries are C05's chunking_independent.",
-    "table_order_within_a_sheet": "the object map is proved order-independent (store_order_irrelevant) but the store's *iteration* order, "
-        "from which table order inside a sheet is derived (find_refs), follows member order; only the metamorphic runs watch it",
 }
 RULE = ("correspondence: seeded lookup lists (1..12 entries, keys distinct or repeated, any order) through the real DataLists.add_table / "
         "lookup_value / lookup_key / table_string; every offsets list of length <= 3 over 6 values x 0..4 columns x both encodings "
@@ -44,8 +44,11 @@ MANIFEST = {
             "Lean theorems over unbounded lists about a model of DataLists, row_storage_map/storage_buffers/storage_buffer, "
             "get_storage_buffers_for_row and ObjectStore.store_object, tied to the code by differential correspondence. That whole "
             "documents read identically from rewritten files is checked metamorphically on the implementation (exploration).",
-    "note": "zipfile, file system, snappy, protobuf are outside the model; table order inside a sheet derives from store iteration "
-            "order and is only watched by the metamorphic runs.",
+    "note": "zipfile, file system, snappy, protobuf are outside the model. Table order inside a sheet used to derive from the store's "
+            "iteration order (= order of the archives inside Index/CalculationEngine.iwa): found by rewriting a saved document with the "
+            "archives of every member reversed (3 tables read back in reverse order), repaired by fixes/C06-table-order-from-drawable-list.patch; "
+            "table_order_within_a_sheet / names_independent_of_store_order are the theorems about the repaired table_ids (Model/DocTree.lean), "
+            "tied by the document-tree stream of checks/c19.py (archive / member reorderings of saved documents).",
     "technique": "Lean 4 proof (fold/permutation lemmas over association lists) + differential correspondence + metamorphic file rewriting",
 }
 
@@ -705,11 +708,18 @@ def run(ctx: Ctx):
     check_row_mapping(ctx)
     check_store(ctx)
     check_documents(ctx)
+    # table order inside a sheet / names: live store vs Model/DocTree.lean, saved documents reopened with the archives of every
+    # member (and the members) reordered; the stream lives in checks/c19.py
+    from checks import c19
+    c19.doctree_stream(ctx, n_hist=48 if ctx.quick else 600, foreign=True)
 
 
 def replay(data):
     L._quiet()
     i = data["input"]
+    if i.get("stream") == "doctree":
+        from checks import c19
+        return c19.replay_doctree(i)
     kind = i.get("kind")
     if kind == "document":
         if i.get("document"):
